@@ -123,7 +123,16 @@ def run(ctx, R2, R3, R4, R5):
                 continue
             seen3.add(key)
             n3 += 1
-            ok = inner in (T("idx", rp, "2"), T("idx", alt_rp, "-1"), T("idx", alt_rp, "1"))
+            RF = T("rfind", A, K("@"))
+            RI = T("rindex", A, K("@"))
+            last_forms = (T("idx", rp, "2"), T("idx", alt_rp, "-1"), T("idx", alt_rp, "1"), T("slice", A, T("add", RF, "1"), "", ""), T("slice", A, T("add", RI, "1"), "", ""))
+            first_forms = (T("idx", T("partition", A, K("@")), "2"), T("idx", T("split", A, K("@"), "1"), "1"), T("idx", T("split", A, K("@"), "1"), "-1"),
+                           T("slice", A, T("add", T("find", A, K("@")), "1"), "", ""), T("slice", A, T("add", T("index", A, K("@")), "1"), "", ""))
+            ok = inner in last_forms
+            if not ok and inner not in first_forms and inner != A and {x for x in subterms(inner) if x.startswith(f"idx({G},")} <= {A}:
+                # a way of cutting the authority the rule does not recognise (DESIGN 13.2): provenance only
+                ctx.ob(R3, pu.qual, f"host:port derives from the authority only (splitting idiom not recognised: {inner[:60]})", True)
+                continue
             ctx.ob(R3, pu.qual, f"host:port is what follows the last '@' of the authority ({inner[:70]})", ok,
                    "" if ok else "`http://a@evil@good/` style inputs put the host before the last '@': urllib3 would address another host than a conforming parser sees", witness=r.witness(), node=pu.node)
             ht, pt = f.get("host", ""), f.get("port", "")
@@ -135,8 +144,14 @@ def run(ctx, R2, R3, R4, R5):
             key = ("auth", au)
             if key not in seen3:
                 seen3.add(key)
-                ok = any(x in (T("idx", rp, "0"), T("idx", alt_rp, "0")) for x in subterms(au))
-                ctx.ob(R3, pu.qual, "userinfo is what precedes the last '@'", ok, au[:80], witness=r.witness(), node=pu.node)
+                RF = T("rfind", A, K("@"))
+                before_last = (T("idx", rp, "0"), T("idx", alt_rp, "0"), T("slice", A, "", RF, ""), T("slice", A, "0", RF, ""), T("slice", A, "", T("rindex", A, K("@")), ""))
+                before_first = (T("idx", T("partition", A, K("@")), "0"), T("idx", T("split", A, K("@"), "1"), "0"), T("slice", A, "", T("find", A, K("@")), ""))
+                ok = any(x in before_last for x in subterms(au))
+                if not ok and not any(x in before_first for x in subterms(au)) and {x for x in subterms(au) if x.startswith(f"idx({G},")} <= {A}:
+                    ctx.ob(R3, pu.qual, f"userinfo derives from the authority only (splitting idiom not recognised: {au[:60]})", True)
+                else:
+                    ctx.ob(R3, pu.qual, "userinfo is what precedes the last '@'", ok, au[:80], witness=r.witness(), node=pu.node)
         # ---- R4: the scheme is lower-cased wherever it is used (result, and as selector of the host normaliser)
         S = T("idx", G, "0")
         sc = f.get("scheme", "")
